@@ -569,6 +569,27 @@ def run(data, prop, manual_ops, overrun_ops):
             r.labels.add('flood-on-closed')
             if not r.violations and check_windows('flood'):
                 check_credit('flood')
+    if prop == 'C04' and not r.violations and not dead and ch.chance(48):
+        # the application closes the connection and acknowledges what it still held afterwards: nothing is sent
+        # any more, so nothing is advertised either - the windows stay what they were
+        owed = [st for st in m.streams.values() if st.open and not st.reserved and st.recv > st.acked]
+        o = s.call('close_connection')
+        if o.ok and owed:
+            st = ch.pick(owed)
+            before = s.call('remote_flow_control_window', st.sid)
+            cbefore = s.c.inbound_flow_control_window
+            o = s.call('acknowledge_received_data', st.recv - st.acked, st.sid)
+            after = s.call('remote_flow_control_window', st.sid)
+            r.step('acknowledge after close_connection', st.sid, st.recv - st.acked, o.brief(),
+                   before.value if before.ok else before.brief(), after.value if after.ok else after.brief())
+            if o.out:
+                r.violate('C04:output-after-close', o.out.hex()[:40])
+            elif (before.ok and after.ok and before.value != after.value) or \
+                    s.c.inbound_flow_control_window != cbefore:
+                r.violate('C04:window-changed-without-window-update:after-close',
+                          'stream %r -> %r, connection %r -> %r' % (before.value, after.value, cbefore,
+                                                                     s.c.inbound_flow_control_window))
+            r.labels.add('acknowledged-after-close')
     if s.out_problems:
         r.violate('%s:malformed-output' % prop, repr(s.out_problems))
     if prop == 'C05':
